@@ -167,6 +167,24 @@ def handleGc : List String → String
     | none => "bad-op"
   | _ => "bad-op"
 
+/-- `hist <ages before the save | -> <ages after the reload | ->`: the histogram as JSON after the first ages,
+    and after state-file round trip + the second ages.  Ages comma-separated. -/
+def showHistJson (l : List (Int × Int × Nat)) : String :=
+  if l.isEmpty then "-" else ",".intercalate (l.map (fun t => s!"{t.1}:{t.2.1}:{t.2.2}"))
+
+def parseAges (t : String) : Option (List Int) :=
+  if t == "-" then some [] else (t.splitOn ",").mapM String.toInt?
+
+def handleHist : List String → String
+  | [a, b] =>
+    match (do
+      let h1 := (← parseAges a).foldl histAdd []
+      let h2 := (← parseAges b).foldl histAdd (histFromJson (histToJson h1))
+      pure (showHistJson (histToJson h1) ++ " | " ++ showHistJson (histToJson h2))) with
+    | some out => out
+    | none => "bad-op"
+  | _ => "bad-op"
+
 def handle : List String → String
   | "gc" :: en :: mode :: types :: now :: shares =>
     match (do
@@ -183,6 +201,7 @@ def handle : List String → String
     | none => "bad-op"
   | "cfg" :: rest => handleCfg rest
   | "gcrun" :: rest => handleGc rest
+  | "hist" :: rest => handleHist rest
   | _ => "bad-op"
 
 def main : IO Unit := mainLoop handle
